@@ -5,6 +5,8 @@
 //! view  v ::= (0 bytes) text | (1) unit | (2 tag (id? hidden class on color) v) element
 //!           | (3 (v v) | (v v v)) tuple | (4 side v) Either | (5 () | (v)) Option
 //!           | (6 (v…)) Vec | (7 (v…)) StaticVec | (8 ((key v)…)) keyed list
+//!           | (9 d) the i32 d (0..9) | (10 bytes) &'static str | (11 branch v) EitherOf3
+//!           | (12 (v…)) array [AnyView; N], N <= 3
 //! Every child position is an `AnyView` (`into_any()`), so a change of shape at any position
 //! is a change of the underlying type; equal shapes go through the typed `rebuild`.
 //!
@@ -14,7 +16,7 @@
 //! `(2 tag (id? hidden class? color?) (children…) old)`; `old` = 1 if this very node (hook
 //! node id) was already in the parent's subtree before the step.
 use crate::util::parent_with_siblings;
-use either_of::Either;
+use either_of::{Either, EitherOf3};
 use std::collections::HashSet;
 use tachys::{
     html::{
@@ -86,6 +88,28 @@ pub fn to_view(v: &Sexp) -> AnyView {
         5 => v.at(1).list().first().map(to_view).into_any(),
         6 => kids(v.at(1)).into_any(),
         7 => StaticVec::from(kids(v.at(1))).into_any(),
+        9 => (v.at(1).num() as i32).into_any(),
+        10 => {
+            let t: &'static str = Box::leak(v.at(1).string().unwrap().into_boxed_str());
+            t.into_any()
+        }
+        11 => {
+            let child = to_view(v.at(2));
+            match v.at(1).num() {
+                0 => EitherOf3::<AnyView, AnyView, AnyView>::A(child).into_any(),
+                1 => EitherOf3::<AnyView, AnyView, AnyView>::B(child).into_any(),
+                _ => EitherOf3::<AnyView, AnyView, AnyView>::C(child).into_any(),
+            }
+        }
+        12 => {
+            let mut k = kids(v.at(1));
+            match k.len() {
+                0 => { let a: [AnyView; 0] = []; a.into_any() }
+                1 => { let a: [AnyView; 1] = [k.pop().unwrap()]; a.into_any() }
+                2 => { let b = k.pop().unwrap(); let a = k.pop().unwrap(); [a, b].into_any() }
+                _ => { let c = k.pop().unwrap(); let b = k.pop().unwrap(); let a = k.pop().unwrap(); [a, b, c].into_any() }
+            }
+        }
         _ => {
             let items: Vec<(i64, Sexp)> = v.at(1).list().iter().map(|kv| (kv.at(0).num(), kv.at(1).clone())).collect();
             keyed(items, |kv: &(i64, Sexp)| kv.0, |_i: usize, kv: (i64, Sexp)| (|_: usize| {}, to_view(&kv.1))).into_any()
